@@ -109,6 +109,12 @@ func runC15Flags(c *Ctx) {
 	impl = append(impl, "ok", "ok", "ok")
 	cases = append(cases, fcase{}, fcase{}, fcase{})
 	bits := []bool{false, true}
+	type job struct {
+		pf, nf      gen.NetworkFlags
+		app, expose bool
+		got         string
+	}
+	var jobs []*job
 	n := 0
 	for _, pe := range bits {
 		for _, ps := range bits {
@@ -123,39 +129,53 @@ func runC15Flags(c *Ctx) {
 								if c.Thorough() {
 									expose = c.Rng.Bool()
 								}
-								pf, nf := flagsFrom3(pe, ps, pa), flagsFrom3(ne, ns, na)
-								// the two exposure switches are set oppositely for application starts, so that reading the
-								// wrong switch shows
-								got := flagRequest(pf, nf, app, expose)
-								fc := fcase{flags3(pf), flags3(nf), app, expose}
-								kind := "rs"
-								if app {
-									kind = "ra"
-								}
-								lines = append(lines, fmt.Sprintf("%s %s %s 0 0 %d 1,2", kind, fc.Peer, fc.Node, b2i(expose)))
-								impl = append(impl, got)
-								cases = append(cases, fc)
-								r.Case(fmt.Sprintf("flags:%+v", fc), true)
-								r.Count("flags." + kind + "." + strings.Fields(got)[0])
-								// independent oracle: routed only if neither end's flags refuse; env iff exposure
-								refuse := func(f gen.NetworkFlags) bool {
-									if app {
-										return f.Enable && !f.EnableRemoteApplicationStart
-									}
-									return f.Enable && !f.EnableRemoteSpawn
-								}
-								routed := strings.HasPrefix(got, "spawned") || strings.HasPrefix(got, "started")
-								if routed && (refuse(pf) || refuse(nf)) {
-									r.Violation("C15/flags-not-enforced", fmt.Sprintf("request executed although the flags refuse it: %+v -> %s", fc, got), fc)
-								}
-								if routed && expose != strings.HasSuffix(got, "1,2") {
-									r.Violation("C15/env-exposure", fmt.Sprintf("exposure=%v but the request carried env %q", expose, got), fc)
-								}
+								jobs = append(jobs, &job{pf: flagsFrom3(pe, ps, pa), nf: flagsFrom3(ne, ns, na), app: app, expose: expose})
 							}
 						}
 					}
 				}
 			}
+		}
+	}
+	// all cases run concurrently (each on its own pair of connections): a request the receiver drops is only
+	// recognisable by the absence of any effect, so the waiting time is paid once, not per case
+	var wg sync.WaitGroup
+	sem := make(chan struct{}, 32)
+	for _, j := range jobs {
+		wg.Add(1)
+		go func(j *job) {
+			defer wg.Done()
+			sem <- struct{}{}
+			j.got = flagRequest(j.pf, j.nf, j.app, j.expose, 1500*time.Millisecond)
+			<-sem
+		}(j)
+	}
+	wg.Wait()
+	for _, j := range jobs {
+		pf, nf, app, expose, got := j.pf, j.nf, j.app, j.expose, j.got
+		fc := fcase{flags3(pf), flags3(nf), app, expose}
+		kind := "rs"
+		if app {
+			kind = "ra"
+		}
+		lines = append(lines, fmt.Sprintf("%s %s %s 0 0 %d 1,2", kind, fc.Peer, fc.Node, b2i(expose)))
+		impl = append(impl, got)
+		cases = append(cases, fc)
+		r.Case(fmt.Sprintf("flags:%+v", fc), true)
+		r.Count("flags." + kind + "." + strings.Fields(got)[0])
+		// independent oracle: routed only if neither end's flags refuse; env iff exposure
+		refuse := func(f gen.NetworkFlags) bool {
+			if app {
+				return f.Enable && !f.EnableRemoteApplicationStart
+			}
+			return f.Enable && !f.EnableRemoteSpawn
+		}
+		routed := strings.HasPrefix(got, "spawned") || strings.HasPrefix(got, "started")
+		if routed && (refuse(pf) || refuse(nf)) {
+			r.Violation("C15/flags-not-enforced", fmt.Sprintf("request executed although the flags refuse it: %+v -> %s", fc, got), fc)
+		}
+		if routed && expose != strings.HasSuffix(got, "1,2") {
+			r.Violation("C15/env-exposure", fmt.Sprintf("exposure=%v but the request carried env %q", expose, got), fc)
 		}
 	}
 	out, err := Model("perm", lines)
@@ -164,6 +184,12 @@ func runC15Flags(c *Ctx) {
 		return
 	}
 	for i := range lines {
+		if out[i] != impl[i] && impl[i] == "dropped" && i >= 3 {
+			// "dropped" is a time-out verdict: retry this case alone with a long wait before reporting
+			j := jobs[i-3]
+			impl[i] = flagRequest(j.pf, j.nf, j.app, j.expose, 6*time.Second)
+			r.Count("flags.retried-alone")
+		}
 		if out[i] != impl[i] {
 			r.Disagree("c15-flags", fmt.Sprintf("%q: model %q, implementation %q", lines[i], out[i], impl[i]), cases[i])
 			return
@@ -172,7 +198,7 @@ func runC15Flags(c *Ctx) {
 }
 
 // flagRequest performs one remote spawn / application start between two fresh proto connections.
-func flagRequest(peerFlags, nodeFlags gen.NetworkFlags, app, expose bool) string {
+func flagRequest(peerFlags, nodeFlags gen.NetworkFlags, app, expose bool, wait time.Duration) string {
 	reqCore := &flagCore{name: "req@h", env: map[gen.Env]any{"K1": "v1", "K2": "v2"},
 		sec: gen.SecurityOptions{ExposeEnvRemoteSpawn: expose != app, ExposeEnvRemoteApplicationStart: expose == app}}
 	rcvCore := &flagCore{name: "rcv@h"}
@@ -208,6 +234,8 @@ func flagRequest(peerFlags, nodeFlags gen.NetworkFlags, app, expose bool) string
 			ch <- res{e}
 		}
 	}()
+	timer := time.After(wait)
+again:
 	select {
 	case x := <-ch:
 		rcvCore.mu.Lock()
@@ -233,13 +261,16 @@ func flagRequest(peerFlags, nodeFlags gen.NetworkFlags, app, expose bool) string
 			return "spawned 1 " + env
 		}
 		return fmt.Sprintf("unexpected err=%v routed=%v", x.err, got)
-	case <-time.After(250 * time.Millisecond):
+	case <-timer:
 		rcvCore.mu.Lock()
 		n := len(rcvCore.got)
 		rcvCore.mu.Unlock()
 		if n == 0 {
 			return "dropped"
 		}
-		return "routed-without-reply"
+		// the receiver's core was called: the reply is on its way (slow machine); the request itself times out after 5 s
+		timer = time.After(8 * time.Second)
+		wait = 0
+		goto again
 	}
 }
